@@ -75,6 +75,20 @@ def systematic():
                 t = c2(c1(x))
                 if t not in out:
                     out.append(t)
+    # unions nested three deep: an outer union with a member that contains a second union, which has a member that prints
+    # in an order of its own (a third union, a struct of several fields) - equality of the outer union must not depend on
+    # how the inner ones happen to print
+    B_, V_ = ("bool",), ("void",)
+    U3 = ("multi", (I_, S_, F_))
+    S3 = ("struct", (("a", I_), ("b", F_), ("c", S_)))
+    wraps = [lambda x: ("arr", x), lambda x: ("cell", x), lambda x: fn_([], x), lambda x: ("tup", (x, I_)), lambda x: fn_([x], I_)]
+    for inner in (U3, S3, ("multi", (I_, S_)), ("struct", (("a", I_), ("b", F_)))):
+        for c1 in wraps:
+            m1 = ("multi", (c1(inner), B_))
+            for c2 in wraps:
+                for t in (("multi", (c2(m1), V_)), c2(m1), ("multi", (c2(m1), S_, ("tup", (I_, I_))))):
+                    if t not in out:
+                        out.append(t)
     return out
 
 
